@@ -359,6 +359,9 @@ func (o *c07) Step(r *StepRec) []Violation {
 			}
 		}
 	}
+	if r.Action.Kind == KRestart {
+		o.vol = map[string]uint64{} // volumes are not part of the exported genesis
+	}
 	// volume: +1 per accepted response, never otherwise
 	bump := func(consumerHex, service, provHex string) {
 		o.vol[addr(consumerHex).String()+"|"+service+"|"+addr(provHex).String()]++
@@ -491,6 +494,9 @@ func (o *c08) Step(r *StepRec) []Violation {
 				continue
 			}
 			if a.Kind == KRespond && a.ReqID == ri.ID {
+				continue
+			}
+			if a.Kind == KRestart {
 				continue
 			}
 			if _, ok := post.ActiveID[ri.ID]; !ok {
